@@ -1,6 +1,7 @@
 package main
 
 import (
+	"path/filepath"
 	"fmt"
 	"go/ast"
 	"go/token"
@@ -68,7 +69,11 @@ func (ex *Exec) lvalueLocs(env *SpecEnv, e ast.Expr) []modLoc {
 				if t == nil {
 					tool("modifies: unknown type in %s", exprString(e))
 				}
-				return []modLoc{{class: typeName(t) + "." + x.Sel.Name, anyObj: true}}
+				fname := x.Sel.Name
+				if strings.HasPrefix(fname, "ghost_") {
+					fname = "$" + strings.TrimPrefix(fname, "ghost_")
+				}
+				return []modLoc{{class: typeName(t) + "." + fname, anyObj: true}}
 			}
 		}
 		base := env.eval(x.X)
@@ -297,6 +302,15 @@ func (ex *Exec) havocLvalue(st *State, fr *Frame, env *SpecEnv, m Clause, pos to
 		if top.Spec != nil && (!top.Spec.ModAll || isGhostClass(loc.class)) && ex.pure == nil && !st.Fresh[loc.ref] && !ex.isGhostLocalClass(loc.class) {
 			var alts []*Term
 			alts = append(alts, Lt(top.EntryFull.Frontier, loc.ref))
+			covered := false
+			for _, mm := range top.Mods {
+				if mm.anyObj && (mm.class == loc.class || classMatches(loc.class, mm.class)) {
+					covered = true
+				}
+			}
+			if covered {
+				continue
+			}
 			for _, mm := range top.Mods {
 				if mm.ref != nil && (classMatches(loc.class, mm.class) || classMatches(mm.class, loc.class) || mm.class == loc.class) {
 					alts = append(alts, Eq(loc.ref, mm.ref))
@@ -712,9 +726,50 @@ func newState() *State {
 	return &State{Locals: map[*Cell]Value{}, Heap: map[string]*Term{}, Locks: map[string]int{}, Fresh: map[*Term]bool{}, Written: map[string]bool{}}
 }
 
+// ImplSpec synthesizes the contract under which runtime type tname's method is verified against the
+// interface contract isp (key "pkg.Iface.Method"): behavioural subtyping, checked not assumed.
+func ImplSpec(isp *FuncSpec, key, tname string) *FuncSpec {
+	c := *isp
+	c.Name = key + "@" + tname
+	c.Iface = false
+	c.Verify = true
+	c.ImplOf = isp
+	c.ImplType = tname
+	c.Implementers = nil
+	return &c
+}
+
+// implFunc resolves the method of the runtime type named tname that implements interface method key.
+func (ex *Exec) implFunc(key, tname string) (*ssa.Function, types.Type) {
+	i := strings.LastIndex(key, ".")
+	mname := key[i+1:]
+	for _, t := range tags.byTag {
+		if typeName(t) != tname {
+			continue
+		}
+		ms := ex.P.SSA.MethodSets.MethodSet(t)
+		for j := 0; j < ms.Len(); j++ {
+			if ms.At(j).Obj().Name() == mname {
+				return ex.P.SSA.MethodValue(ms.At(j)), t
+			}
+		}
+	}
+	return nil, nil
+}
+
 // VerifyFunc generates the obligations of one function under contract.
 func (ex *Exec) VerifyFunc(sp *FuncSpec) {
-	fn := ex.P.FindFunc(sp.Name)
+	var fn *ssa.Function
+	var implT types.Type
+	if sp.ImplOf != nil {
+		if f := ex.P.FindFunc(sp.ImplType); f != nil && !strings.HasPrefix(sp.ImplType, "*") && strings.Contains(sp.ImplType, "$") {
+			fn = f // a closure checked against the contract of a named function type
+		} else {
+			fn, implT = ex.implFunc(sp.ImplOf.Name, sp.ImplType)
+		}
+	} else {
+		fn = ex.P.FindFunc(sp.Name)
+	}
 	ex.TopName = sp.Name
 	ex.TopSpec = sp
 	if fn == nil || fn.Blocks == nil {
@@ -757,6 +812,23 @@ func (ex *Exec) VerifyFunc(sp *FuncSpec) {
 		fr.Regs[fv] = objPtr(ref, t)
 	}
 	fr.Spec = sp
+	if sp.ImplOf != nil {
+		// names of the interface contract: recv = the receiver as an interface value, the interface
+		// method's parameter names bound positionally
+		fr.Extra = map[string]TV{}
+		off := 0
+		if implT != nil {
+			fr.Extra["recv"] = TV{ex.makeIface(st, args[0], implT), nil}
+			off = 1
+		}
+		if isig := ex.ifaceSig(sp.ImplOf.Name); isig != nil {
+			for j := 0; j < isig.Params().Len() && j+off < len(args); j++ {
+				if n := isig.Params().At(j).Name(); n != "" && n != "_" {
+					fr.Extra[n] = TV{args[j+off], isig.Params().At(j).Type()}
+				}
+			}
+		}
+	}
 	fr.EntryFull = st.snapshotFull()
 	env := ex.funcEnv(st, fr)
 	env.lets = sp.Lets
@@ -823,6 +895,38 @@ func (ex *Exec) VerifyFunc(sp *FuncSpec) {
 		// every path ended in a panic or a loop back edge: no return reached
 		ex.note(sp.Name + ": no return path reached")
 	}
+}
+
+// ifaceSig: signature of interface method "pkg.Iface.Method".
+func (ex *Exec) ifaceSig(key string) *types.Signature {
+	parts := strings.Split(key, ".")
+	if len(parts) != 3 && len(parts) != 2 {
+		return nil
+	}
+	for path, pk := range ex.P.ByPath {
+		if filepath.Base(path) != parts[0] {
+			continue
+		}
+		o := pk.Types.Scope().Lookup(parts[1])
+		if o == nil {
+			return nil
+		}
+		if len(parts) == 2 {
+			// a named function type
+			sg, _ := under(o.Type()).(*types.Signature)
+			return sg
+		}
+		it, ok := under(o.Type()).(*types.Interface)
+		if !ok {
+			return nil
+		}
+		for i := 0; i < it.NumMethods(); i++ {
+			if it.Method(i).Name() == parts[2] {
+				return it.Method(i).Type().(*types.Signature)
+			}
+		}
+	}
+	return nil
 }
 
 // ensure interface satisfaction helper is referenced
